@@ -45,6 +45,19 @@ def abbreviations(zone: str) -> tuple:
     return _ABBR[zone]
 
 
+_STD = {}
+
+
+def _standard_offset(zone: str):
+    """The zone's standard (non-DST) UTC offset around 2026 - what time.timezone shows."""
+    if zone not in _STD:
+        tz = ZoneInfo(zone)
+        offs = [datetime(2026, m, 15, 12, tzinfo=tz) for m in (1, 7)]
+        std = [d.utcoffset() for d in offs if not d.dst()] or [min(d.utcoffset() for d in offs)]
+        _STD[zone] = std[0]
+    return _STD[zone]
+
+
 def confusable(zone: str, epoch: float, zones) -> list:
     """Other zones that share this zone's UTC offset at `epoch` (but differ within a day of it), or share its abbreviation pair
     (but not its offset): what a cache keyed by 'the offset now' or by time.tzname cannot tell apart."""
@@ -56,7 +69,7 @@ def confusable(zone: str, epoch: float, zones) -> list:
         off_z = local(z, epoch).utcoffset()
         same_now = off_z == off
         differs_soon = any(local(z, epoch + k * 3600).utcoffset() != local(zone, epoch + k * 3600).utcoffset() for k in (-24, -12, -6, 6, 12, 24, 36))
-        if (same_now and differs_soon) or (abbreviations(z) == abbreviations(zone) and not same_now):
+        if (same_now and differs_soon) or (abbreviations(z) == abbreviations(zone) and not same_now) or (not same_now and _standard_offset(z) == _standard_offset(zone)):
             out.append(z)
     return out
 
